@@ -138,6 +138,7 @@ def shards(tier):
             out.append({"kind": "nested", "n": n, "part": j, "of": d["nest_parts"][n],
                         "bound": "length<=%d" % n})
     out.append({"kind": "single-wrap", "bound": "length<=3"})
+    out.append({"kind": "shared", "group": "shared-variable", "bound": "length<=2"})
     out.append({"kind": "compose-kw", "bound": "length<=%d" % d["kw_chain"]})
     for j in range(d["comb_parts"]):
         out.append({"kind": "combine", "part": j, "of": d["comb_parts"], "bound": "length<=4"})
@@ -517,7 +518,59 @@ def judge(res, case):
     return nontrivial
 
 
+# ---------------------------------------------------------------------------------------------------
+# law "shared-variable": one Variable object applied in two chains (values) whose earlier variable has
+# the same type but other attributes; a variable is a function of the value it is given
+SHARED_FORMS = ("sequence", "direct", "compose")
+
+
+def _apply_chain(form, first, second, val):
+    import lena.core
+    import lena.variables
+    if form == "sequence":
+        return list(lena.core.Sequence(first, second).run(iter([val])))[0]
+    if form == "direct":
+        return second(first(val))
+    return lena.variables.Compose(first, second)(val)
+
+
+def check_shared_variable(res):
+    import lena.variables
+    profs = M.PROFILES
+    for ta, tx in (("particle", "coordinate"), ("t.2", "x")):
+        for pa in range(len(profs)):
+            for pb in range(len(profs)):
+                for form1 in SHARED_FORMS:
+                    for form2 in SHARED_FORMS:
+                        for vform in ("bare", "plain", "typed-variable"):
+                            case = {"law": "shared-variable", "types": [ta, tx], "profiles": [pa, pb],
+                                    "forms": [form1, form2], "value": vform}
+
+                            def mk(name, typ, prof):
+                                return lena.variables.Variable(name, lambda d: (name, d), type=typ,
+                                                               **copy.deepcopy(profs[prof]))
+                            try:
+                                x = mk("x", tx, 1)
+                                _apply_chain(form1, mk("first_a", ta, pa), x, M.value(vform))
+                                got = _apply_chain(form2, mk("first_b", ta, pb), x, M.value(vform))
+                                want = _apply_chain(form2, mk("first_b", ta, pb), mk("x", tx, 1), M.value(vform))
+                                ok = canon(got) == canon(want)
+                                observed = _short(got)
+                            except Exception as e:  # noqa
+                                ok, observed, want = False, "raised " + type(e).__name__, None
+                            res.case(nontrivial=pa != pb, outcome=(form1, form2, vform, ok))
+                            if not ok:
+                                res.violation(case, observed, _short(want) if want is not None else "a value",
+                                              {"law": "shared-variable", "second_form": form2,
+                                               "same_attributes": pa == pb})
+    res.sample(case, 1)
+
+
 def run_shard(p, tier):
+    if p.get("group") == "shared-variable":
+        res = Result()
+        check_shared_variable(res)
+        return res
     res = Result()
     limit = 2
     for case in cases_of(p, tier):
@@ -531,7 +584,16 @@ def run_shard(p, tier):
     return res
 
 
+def _replay_shared(case):
+    res = Result()
+    check_shared_variable(res)
+    keys = ("types", "profiles", "forms", "value")
+    return [v for v in result_violations(res) if all(v["case"].get(k) == case.get(k) for k in keys)]
+
+
 def replay(case):
+    if case.get("law") == "shared-variable":
+        return _replay_shared(case)
     res = Result()
     judge(res, case)
     return result_violations(res)
